@@ -42,8 +42,10 @@ GNext ==
      \/ ServerReply /\ Biased(New) /\ nrep' = nrep + 1
           /\ H([k |-> "reply", b |-> New, xfer |-> (xfer' /\ ~xfer), drop |-> FALSE])
      \/ ServerDrop /\ (~Bias \/ nrep = failAt) /\ nrep' = nrep + 1
-          /\ H([k |-> "reply", b |-> New, xfer |-> FALSE, drop |-> TRUE])
-     \/ ServerFinal /\ H([k |-> "final", b |-> New, eager |-> (cpc = "r_begin")]) /\ nrep' = nrep + 1
+          /\ IF finalSent' /\ ~finalSent
+             THEN H([k |-> "final", b |-> New, eager |-> (cpc = "r_begin"), drop |-> TRUE])
+             ELSE H([k |-> "reply", b |-> New, xfer |-> FALSE, drop |-> TRUE])
+     \/ ServerFinal /\ H([k |-> "final", b |-> New, eager |-> (cpc = "r_begin"), drop |-> FALSE]) /\ nrep' = nrep + 1
      \/ \E n \in 1..MaxData : DataSend(n) /\ H([k |-> "data", n |-> n]) /\ UNCHANGED nrep
      \/ DataClose /\ H([k |-> "close"]) /\ UNCHANGED nrep
      \/ \E u \in {user, <<98>>}, m \in {"file", "listing"} :
